@@ -13,8 +13,10 @@ import (
 	"encoding/json"
 	"fmt"
 	"math/big"
+	"os"
 	"path/filepath"
 	"runtime"
+	"runtime/pprof"
 	"strings"
 	"sync"
 
@@ -248,8 +250,10 @@ func (g *gen) exec(in *Input) result {
 	}
 	r.verified = true
 	r.accept = r.class == "accept"
-	ex := g.exact(target, r.claim, vh)
-	r.exact = &ex
+	if !in.Bound || in.Kind == "complete" || in.Kind == "o7" || os.Getenv("C06_EXACT_ALL") != "" {
+		ex := g.exact(target, r.claim, vh)
+		r.exact = &ex
+	}
 	return r
 }
 
@@ -306,6 +310,9 @@ func (g *gen) count(in *Input, r *result) {
 	k := in.Kind
 	if in.E2E != nil {
 		k = "e2e-" + in.E2E.Kind
+		if in.E2E.Proof == "smt" {
+			k = "e2e-smt-" + in.E2E.Kind
+		}
 	}
 	cls := r.class
 	if in.E2E != nil && r.e2eAccept != nil {
@@ -432,10 +439,10 @@ func (g *gen) generate() {
 	for _, sch := range schs {
 		for si, sp := range g.credSpecs(sch) {
 			var os []credgen.Opts
-			if g.cfg.Thorough() || si == 0 {
+			if g.cfg.Thorough() || (si == 0 && sch.Label != "kyc-v3") {
 				os = grid
 			} else {
-				for k := 0; k < 8; k++ {
+				for k := 0; k < 6; k++ {
 					os = append(os, grid[rng.Intn(len(grid))])
 				}
 				os = append(os, credgen.Opts{}, credgen.Opts{Subject: "value", Root: "value", Upd: true, Version: 7, RevNonce: 99})
@@ -451,7 +458,11 @@ func (g *gen) generate() {
 	}
 	nComplete := len(ins)
 	g.runAll(ins, func(i int) bool { return g.cfg.Thorough() || i%2 == 0 || i >= nComplete-40 })
+	_ = nComplete
 
+	if os.Getenv("C06_ONLY") == "complete" {
+		return
+	}
 	// 2. every single-site modification of the credential document
 	ins = nil
 	docOpts := []credgen.Opts{{}, {Subject: "value", Root: "value", Upd: true, Version: 3, RevNonce: 12345678901234567890}}
@@ -463,7 +474,7 @@ func (g *gen) generate() {
 				if !sch.Merklized {
 					o.Root = ""
 				}
-				if oi == 1 && !g.cfg.Thorough() && si > 1 {
+				if !g.cfg.Thorough() && (oi == 1 && si > 0 || si == 2 || si == 4) {
 					continue
 				}
 				for _, m := range mods {
@@ -506,7 +517,7 @@ func (g *gen) generate() {
 		{schs[1], 0, credgen.Opts{RevNonce: 5, Subject: "index"}, true},
 		{schs[0], 3, credgen.Opts{}, false},
 		{schs[1], 2, credgen.Opts{Upd: true, Version: 9}, false},
-		{schs[2], 0, credgen.Opts{RevNonce: 74881362}, g.cfg.Thorough()},
+		{schs[2], 0, credgen.Opts{RevNonce: 74881362}, true},
 		{schs[2], 4, credgen.Opts{Root: "value"}, false},
 	}
 	var coqMask []bool
@@ -530,14 +541,18 @@ func (g *gen) generate() {
 			ins = append(ins, mk(m))
 			coqMask = append(coqMask, true)
 		}
-		if p.all {
-			flips := allBitFlips(slots)
-			// a few flips per bit field go to the Coq model; all go through the implementation-side oracles
+		if p.all && g.cfg.Thorough() {
+			// every single-bit change; a few per bit field go to the Coq model, all go through the implementation-side oracles
 			seen := map[string]int{}
-			for _, m := range flips {
+			for _, m := range allBitFlips(slots) {
 				ins = append(ins, mk(m))
 				seen[m.Field]++
 				coqMask = append(coqMask, seen[m.Field] <= 2 || rng.Intn(40) == 0)
+			}
+		} else {
+			for _, m := range sampledFlips(slots, rng, 3) {
+				ins = append(ins, mk(m))
+				coqMask = append(coqMask, true)
 			}
 		}
 	}
@@ -701,6 +716,11 @@ func Run(cfg *common.Config) (*common.Report, error) {
 			return nil, err
 		}
 		return g.rep, nil
+	}
+	if pf := os.Getenv("C06_PROF"); pf != "" {
+		fh, _ := os.Create(pf)
+		_ = pprof.StartCPUProfile(fh)
+		defer pprof.StopCPUProfile()
 	}
 	g.generate()
 	if err := g.writeShards(); err != nil {
